@@ -93,6 +93,7 @@ Qed.
 Lemma free_vip_skc name s : same_skc (free_vip name s) s.
 Proof.
   unfold free_vip. destruct (negb _); [apply same_skc_refl|]. destruct (has_instance name s); [apply same_skc_refl|].
+  destruct (has_connect_instance name s); [apply same_skc_refl|].
   destruct (existsb _ _); [apply same_skc_refl|]. destruct (vips s !! name) as [[ip m]|]; repeat split.
 Qed.
 Lemma free_vip_services name s : services (free_vip name s) = services s.
